@@ -21,9 +21,7 @@ LEVEL_TEXT = ("proof (Coq), general in degree, knot vector, multiplicities and p
               "knot vectors for every (degree, count).  A2.3: ndu table specification, Eq. 2.10, rows = Eq. 2.9, rows agree with A2.5 and every "
               "derivative row sums to zero - for EVERY degree (round 2, Proofs/DersGeneral*.v; the degree <= 5/6 window theorems remain as cross-checks). "
               "Executed Q instance = image of the R instance by parametricity (transfer theorems).")
-TRANSLATED = ["linalg.linspace", "knotvector.generate", "knotvector.normalize", "knotvector.check", "helpers.find_span_binsearch",
-              "helpers.find_span_linear", "helpers.find_spans", "helpers.find_multiplicity", "helpers.basis_function",
-              "helpers.basis_function_one", "helpers.basis_functions"]
+TRANSLATED = ["linalg.linspace", "knotvector.generate", "knotvector.normalize", "knotvector.check", "helpers.find_span_binsearch", "helpers.find_span_linear", "helpers.find_spans", "helpers.find_multiplicity", "helpers.basis_function", "helpers.basis_function_one", "helpers.basis_functions", "helpers.basis_function_ders", "helpers.basis_function_ders_one"]
 TECHNIQUE = "Coq proof (induction over degree / list structure, field on symbolic knot windows + window locality) on a Gallina model + vm_compute correspondence with the implementation"
 
 
